@@ -150,6 +150,9 @@ SCAN_NAMES = {0: "IterateRange", 1: "Iterate", 2: "IterateKey"}
 
 
 def evaluate(ck, recs):
+    kc = ck.extra.setdefault("evaluated_by_kind", {})
+    for r in recs:
+        kc["emitted:" + r["k"]] = kc.get("emitted:" + r["k"], 0) + 1
     ops = [r for r in recs if r["k"] == "ops"]
     scans = [r for r in recs if r["k"] == "scan"]
     for c in recs:
@@ -210,6 +213,7 @@ def evaluate(ck, recs):
             p1 = ck.coq_eval(IMPORTS, typ, "ops2_phase1", [termf(c) for c in badc], shard=100, tag="ops2p1") or [1] * len(badc)
             phase1 = {id(c): v for c, v in zip(badc, p1)}
         if rk is not None:
+            kc[kind] = kc.get(kind, 0) + len(rk)
             for c, code in zip(okc, rk):
                 ck.count()
                 ck.nontrivial((kind, json.dumps(strip_obs(c), sort_keys=True)))
@@ -241,6 +245,7 @@ def evaluate(ck, recs):
     okb = [c for c in bdbs if not c.get("panic")]
     rb = ck.coq_eval(IMPORTS, "bdb_case", "check_bdb", [bdb_term(c) for c in okb], shard=200, tag="bdb")
     if rb is not None:
+        kc["bdb"] = kc.get("bdb", 0) + len(rb)
         for c, code in zip(okb, rb):
             ck.count()
             if any(o["o"] != "get" for o in c["ops"]) and any(o["o"] == "get" and o.get("res") for o in c["ops"]):
@@ -256,6 +261,7 @@ def evaluate(ck, recs):
                 ck.failures.append(f)
     bad_ops = []
     if ro is not None:
+        kc["ops"] = kc.get("ops", 0) + len(ro)
         for c, code in zip(good, ro):
             ck.count()
             kinds = [o["o"] for o in c["ops"]]
@@ -297,6 +303,7 @@ def evaluate(ck, recs):
             f["spec_violated"] = spec_bad
             ck.failures.append(f)
     if rs is not None:
+        kc["scan"] = kc.get("scan", 0) + len(rs)
         for c, code in zip(scans, rs):
             ck.count()
             if c["res"]:
@@ -331,6 +338,19 @@ def run(ck):
     if recs is None:
         return
     evaluate(ck, recs)
+    # floors per kind of case, well below what the generator flags give by construction (quick: -ops 1200 of which about one
+    # in six becomes ops2, -scan 1500, -bdb 300, -two 150, plus the corpus): a generator or evaluator that silently yields
+    # nothing of a kind is an undischarged obligation
+    kc = ck.extra.get("evaluated_by_kind", {})
+    q = ck.tier == "quick"
+    for kind, least in (("ops", 800 if q else 12000), ("ops2", 100 if q else 1500), ("scan", 1200 if q else 24000),
+                        ("bdb", 200 if q else 4000), ("two", 100 if q else 2400)):
+        ck.obligations += 1
+        if kc.get(kind, 0) >= least:
+            ck.discharged += 1
+        else:
+            ck.fail_obligation("floor:" + kind, "coverage floor not met: %d evaluated cases of kind %s, at least %d expected" % (
+                kc.get(kind, 0), kind, least))
     for r in [x for x in recs if x["k"] == "ops"][:2] + [x for x in recs if x["k"] == "scan"][:2]:
         ck.sample(strip_obs(r))
     ck.cov["rule"] = ("ops: random sequences of get/has/set/del/range/iterate/snapshot/restore/delete-snapshot/with-prefix over up to "
